@@ -1,9 +1,12 @@
 #!/bin/sh
-# Build /repo with the verification guard OFF (no -DRTOSC_VERIF) exactly as the
-# pinned baseline does and run its 31 tests.
+# Build the repository (default /repo, or $VERIF_REPO) with the verification
+# guard OFF (no -DRTOSC_VERIF) exactly as the pinned baseline does and run its
+# 31 tests.
 set -e
-B=/verif/_work/baseline
+V=$(cd "$(dirname "$0")/.." && pwd)
+R=${VERIF_REPO:-/repo}
+B=$V/_work/baseline
 rm -rf "$B"
-cmake -G Ninja -S /repo -B "$B" -DCMAKE_BUILD_TYPE=RelWithDebInfo >/dev/null
+cmake -G Ninja -S "$R" -B "$B" -DCMAKE_BUILD_TYPE=RelWithDebInfo >/dev/null
 cmake --build "$B" >/dev/null
 ctest --test-dir "$B" -j8 --timeout 900
